@@ -385,4 +385,27 @@ MUTANTS = [
     M("c02-deck-any", ["C02"], (FE, "                    .all(|c| (*c).unwrap() != card)", "                    .any(|c| (*c).unwrap() != card)")),
     M("c02-deck-other-card", ["C02"], (FE, "                    current_deck.push(card);", "                    current_deck.push(Card::new(rank, crate::card::Suit::Spade));")),
     M("c02-board-sorted", ["C02"], (FE, "        let mut current_deck = Vec::with_capacity(52);", "        let mut sorted_board = evaluator.board.clone();\n        sorted_board[..3].sort_unstable();\n        let mut current_deck = Vec::with_capacity(52);"), (FE, "            current_board: evaluator.board.clone(),", "            current_board: sorted_board,")),
+    # third benign round (medium modernisation edits) and mutants of the refactored forms
+    M("benign-D3-5-byte-index", ["C05", "C06", "C09", "C10", "C17"], base="D3-5", benign=True),
+    M("D3-5-wrong-byte", ["C05"], (TK, "            && bytes[3] == bytes[4]", "            && bytes[3] == bytes[3]"), base="D3-5"),
+    M("D3-5-marker-o", ["C05"], (TK, "        if bottom_closed_rank_pair_range_regex.is_match(s) && bytes[0] != bytes[1] {", "        if bottom_closed_rank_pair_range_regex.is_match(s) && bytes[0] != bytes[2] {"), base="D3-5"),
+    M("D3-5-distinct-dropped", ["C10"], (TK, "        if single_rank_pair_regex.is_match(s) && bytes[0] != bytes[1] {", "        if single_rank_pair_regex.is_match(s) {"), base="D3-5"),
+    M("D3-5-byte-before-guard", ["C09"], (TK, "        let bytes = s.as_bytes();\n", "        let bytes = s.as_bytes();\n        if bytes[1] == b'x' {\n            return Err(());\n        }\n"), base="D3-5"),
+    M("benign-D6-5-question-mark", ["C05", "C09", "C14"], base="D6-5", benign=True),
+    M("D6-5-raw-ctor", ["C14"], (CP, "        Ok(CardPair::new(left, right))", "        Ok(CardPair(left, right))"), base="D6-5"),
+    M("D6-5-same-half", ["C14"], (CP, "        let right = parse_card(&value[2..4])?;", "        let right = parse_card(&value[0..2])?;"), base="D6-5"),
+    M("benign-D2-2-sum-chain", ["C01", "C07", "C08"], base="D2-2", benign=True),
+    M("benign-D2-3-map-or-else", ["C01", "C07", "C08"], base="D2-3", benign=True),
+    M("benign-D1-2-rev-find", ["C02", "C04", "C08"], base="D1-2", benign=True),
+    M("benign-D1-1-collect", ["C02", "C08"], base="D1-1", benign=True),
+    M("benign-D4-1-for-each", ["C05", "C10"], base="D4-1", benign=True),
+    M("benign-D4-2-map-or", ["C06", "C17"], base="D4-2", benign=True),
+    M("D4-2-map-or-false", ["C06"], (HRS, "probability.map_or(true, |p| p != start_probability)", "probability.map_or(false, |p| p != start_probability)"), base="D4-2"),
+    M("D4-2-map-or-eq", ["C06"], (HRS, "probability.map_or(true, |p| p != start_probability)", "probability.map_or(true, |p| p == start_probability)"), base="D4-2"),
+    M("D1-1-skip-player", ["C02"], (FE, "            .players\n            .iter()\n            .map(|player| {", "            .players\n            .iter()\n            .skip(1)\n            .map(|player| {"), base="D1-1"),
+    M("D1-1-filter-weight", ["C02"], (FE, "                    .map(|(card_pair, probability)| (*card_pair, *probability))\n                    .collect()", "                    .filter(|(_, probability)| **probability > 0.0)\n                    .map(|(card_pair, probability)| (*card_pair, *probability))\n                    .collect()"), base="D1-1"),
+    M("D1-2-find-no-rev", ["C02"], (FE, "            .rev()\n            .find(", "            .find("), base="D1-2"),
+    M("D1-2-find-bound", ["C02"], (FE, ".find(|&ri| self.current_player_indexes[ri] + 1 < self.player_entries[ri].len());", ".find(|&ri| self.current_player_indexes[ri] + 2 < self.player_entries[ri].len());"), base="D1-2"),
+    M("D2-2-filter-ne", ["C01"], (MH, "        .filter(|card| card.suit() == suit)", "        .filter(|card| card.suit() != suit)"), base="D2-2"),
+    M("D2-2-skip-first", ["C01"], (MH, "    cards\n        .iter()\n        .filter(", "    cards\n        .iter()\n        .skip(1)\n        .filter("), base="D2-2"),
 ]
